@@ -8,7 +8,8 @@ import core_engine
 import coreops
 import canon
 
-EXTRA_SCAN = ["CobraModel/Lemmas/Core.lean", "CobraModel/Model/Core.lean", "CobraModel/Lemmas/SplitRange.lean"]
+EXTRA_SCAN = ["CobraModel/Lemmas/Core.lean", "CobraModel/Lemmas/CoreBase.lean", "CobraModel/Lemmas/CoreMets.lean", "CobraModel/Model/Core.lean",
+              "CobraModel/Lemmas/SplitRange.lean"]
 
 
 def run_core_property(ctx, module, kinds, oracles, quick, thorough, rule, extra_oracle=None, maxlen=14, assumptions=(), profiles=None):
@@ -59,7 +60,10 @@ def run_core_property(ctx, module, kinds, oracles, quick, thorough, rule, extra_
         "steps_oracle_only": stats.get("oracle_only_steps", 0),
         "op_histogram": stats.get("op_hist", {}),
         "error_histogram": stats.get("err_hist", {}),
-        "modelled_ops": modelled + (["rm_rxns (one reaction of the model, orphans kept: Core.removeRxn)"] if "rm_rxns" in stats.get("op_hist", {}) else []) + (["add_rxns (one new reaction, metabolites of the model, no rule: Core.addRxn)"] if "add_rxns" in stats.get("op_hist", {}) else []),
+        "modelled_ops": modelled + (["rm_rxns (one reaction of the model, orphans kept: Core.removeRxn)"] if "rm_rxns" in stats.get("op_hist", {}) else []) + (["add_rxns (one new reaction, metabolites of the model, no rule: Core.addRxn)"] if "add_rxns" in stats.get("op_hist", {}) else [])
+                        + (["add_model_mets (one metabolite: Core.addMet)"] if "add_model_mets" in stats.get("op_hist", {}) else [])
+                        + (["rm_mets (one metabolite, destructive=False: Core.rmMet)"] if "rm_mets" in stats.get("op_hist", {}) else [])
+                        + (["imul (reaction *= k, k != 0: Core.imul)"] if "imul" in stats.get("op_hist", {}) else []),
         "oracle_only_ops": sorted(k for k in stats.get("op_hist", {}) if k not in coreops.MODELLED),
     })
     ctx.assumptions += [
